@@ -320,6 +320,7 @@ type FnCFG struct {
 	idom    []int          // unused
 	domsets []map[int]bool // dominator sets per block
 	nodes   []cfgNode
+	body    *ast.BlockStmt
 }
 
 type cfgNode struct {
@@ -350,7 +351,7 @@ func (p *Prog) noReturn(call *ast.CallExpr) bool {
 
 func (p *Prog) buildCFG(body *ast.BlockStmt) *FnCFG {
 	g := cfg.New(body, func(c *ast.CallExpr) bool { return !p.noReturn(c) })
-	c := &FnCFG{p: p, g: g}
+	c := &FnCFG{p: p, g: g, body: body}
 	for _, b := range g.Blocks {
 		for i, n := range b.Nodes {
 			c.nodes = append(c.nodes, cfgNode{n, int(b.Index), i})
@@ -821,8 +822,9 @@ func (p *Prog) asserted(body ast.Node) []assertion {
 
 // pathCond is a branch condition with the polarity it has on the path.
 type pathCond struct {
-	e   ast.Expr
-	pos bool
+	e          ast.Expr
+	pos        bool
+	fromAssert bool // comes from util.Assert(e) rather than from a branch
 }
 
 // retPath is one acyclic path through a statement list: the conditions assumed, the statements executed (straight-line
@@ -837,7 +839,13 @@ type retPath struct {
 // retPaths enumerates the paths of a loop-free statement list (if / else-if chains, early returns, util.Assert, constant
 // conditions pruned, expression switches with constant cases). ok is false when the code contains a loop with a return
 // inside, a goto, a select, or more than 64 paths: the caller must then report `undecided`, never guess.
-func (p *Prog) retPaths(list []ast.Stmt) ([]retPath, bool) {
+func (p *Prog) retPaths(list []ast.Stmt) ([]retPath, bool) { return p.retPaths0(list, false) }
+
+// retPathsLoose is retPaths that treats a loop with a return inside as one opaque statement (for summaries that print
+// the loop in full); the enumeration is then not a complete case analysis of the results.
+func (p *Prog) retPathsLoose(list []ast.Stmt) ([]retPath, bool) { return p.retPaths0(list, true) }
+
+func (p *Prog) retPaths0(list []ast.Stmt, loose bool) ([]retPath, bool) {
 	type st struct {
 		conds []pathCond
 		stmts []ast.Stmt
@@ -877,14 +885,14 @@ func (p *Prog) retPaths(list []ast.Stmt) ([]retPath, bool) {
 					if cv == nil || constant.BoolVal(cv) {
 						t := cp(o)
 						if cv == nil {
-							t.conds = append(t.conds, pathCond{x.Cond, true})
+							t.conds = append(t.conds, pathCond{e: x.Cond, pos: true})
 						}
 						thenIn = append(thenIn, t)
 					}
 					if cv == nil || !constant.BoolVal(cv) {
 						e := cp(o)
 						if cv == nil {
-							e.conds = append(e.conds, pathCond{x.Cond, false})
+							e.conds = append(e.conds, pathCond{e: x.Cond, pos: false})
 						}
 						elseIn = append(elseIn, e)
 					}
@@ -910,7 +918,7 @@ func (p *Prog) retPaths(list []ast.Stmt) ([]retPath, bool) {
 					}
 					if p.calleeName(ce) == "util.Assert" && len(ce.Args) > 0 {
 						for i := range open {
-							open[i].conds = append(open[i].conds, pathCond{ce.Args[0], true})
+							open[i].conds = append(open[i].conds, pathCond{ce.Args[0], true, true})
 						}
 						continue
 					}
@@ -919,7 +927,7 @@ func (p *Prog) retPaths(list []ast.Stmt) ([]retPath, bool) {
 					open[i].stmts = append(open[i].stmts, s)
 				}
 			case *ast.ForStmt, *ast.RangeStmt:
-				if len(returnsOf(s)) > 0 {
+				if len(returnsOf(s)) > 0 && !loose {
 					ok = false
 					return nil
 				}
@@ -952,11 +960,11 @@ func (p *Prog) retPaths(list []ast.Stmt) ([]retPath, bool) {
 					var in []st
 					for _, o := range open {
 						t := cp(o)
-						t.conds = append(append(t.conds, negs...), pathCond{cond, true})
+						t.conds = append(append(t.conds, negs...), pathCond{e: cond, pos: true})
 						in = append(in, t)
 					}
 					out = append(out, run(cc.Body, in)...)
-					negs = append(negs, pathCond{cond, false})
+					negs = append(negs, pathCond{e: cond, pos: false})
 				}
 				var in []st
 				for _, o := range open {
@@ -1003,6 +1011,7 @@ type absLoop struct {
 	body      *ast.BlockStmt
 	idx, elem types.Object
 	start     ast.Expr // nil: starts at element 0
+	bound     ast.Expr // counted loops: the (resolved) upper bound; seq is nil when it is not len(X)
 }
 
 func (p *Prog) absLoops(body ast.Node, defs map[types.Object]ast.Expr) []absLoop {
@@ -1052,11 +1061,10 @@ func (p *Prog) absLoops(body ast.Node, defs map[types.Object]ast.Expr) []absLoop
 				return true
 			}
 			bound := resolve(cond.Y)
-			ce, ok := unparen(bound).(*ast.CallExpr)
-			if !ok || p.calleeName(ce) != "builtin.len" || len(ce.Args) != 1 {
-				return true
+			l := absLoop{stmt: s, body: s.Body, idx: iv, bound: bound}
+			if ce, ok := unparen(bound).(*ast.CallExpr); ok && p.calleeName(ce) == "builtin.len" && len(ce.Args) == 1 {
+				l.seqRaw, l.seq = ce.Args[0], resolve(ce.Args[0])
 			}
-			l := absLoop{stmt: s, seqRaw: ce.Args[0], seq: resolve(ce.Args[0]), body: s.Body, idx: iv}
 			if v := p.constOf(init.Rhs[0]); v == nil || constant.Sign(v) != 0 {
 				l.start = init.Rhs[0]
 			}
@@ -1073,7 +1081,7 @@ func (l absLoop) isElem(p *Prog, e ast.Expr) bool {
 	if id, ok := e.(*ast.Ident); ok {
 		return l.elem != nil && p.objOf(id) == l.elem
 	}
-	if ix, ok := e.(*ast.IndexExpr); ok && l.idx != nil {
+	if ix, ok := e.(*ast.IndexExpr); ok && l.idx != nil && l.seq != nil {
 		if id, ok := unparen(ix.Index).(*ast.Ident); ok && p.objOf(id) == l.idx {
 			return sx(ix.X) == sx(l.seqRaw) || sx(ix.X) == sx(l.seq)
 		}
@@ -1106,4 +1114,93 @@ func (p *Prog) funcOf(e ast.Expr) (node ast.Node, ft *ast.FuncType, body *ast.Bl
 		}
 	}
 	return nil, nil, nil
+}
+
+// condsAt returns the branch conditions that hold whenever control reaches n: for every two-way branch whose
+// true (false) successor has that branch as its only live predecessor and dominates n's block, the condition holds
+// positively (negatively); go/cfg keeps `a && b` as one condition, callers split it with conjuncts(condTerm(..)).
+// Together with util.Assert calls that dominate n (after canonicalisation every `if c { panic }` is one) this is the
+// "what is known here" used by rules that need control dependence rather than syntactic nesting.
+func (c *FnCFG) condsAt(n ast.Node) []pathCond {
+	nb, _, ok := c.locate(n)
+	if !ok {
+		return nil
+	}
+	livePreds := map[int][]int{}
+	for _, b := range c.g.Blocks {
+		if !b.Live {
+			continue
+		}
+		for _, s := range b.Succs {
+			livePreds[int(s.Index)] = append(livePreds[int(s.Index)], int(b.Index))
+		}
+	}
+	var out []pathCond
+	for _, b := range c.g.Blocks {
+		if !b.Live || len(b.Succs) != 2 || len(b.Nodes) == 0 || b.Succs[0] == b.Succs[1] {
+			continue
+		}
+		cond, isExpr := b.Nodes[len(b.Nodes)-1].(ast.Expr)
+		if !isExpr {
+			continue
+		}
+		for k, pol := range []bool{true, false} {
+			s := int(b.Succs[k].Index)
+			if len(livePreds[s]) == 1 && livePreds[s][0] == int(b.Index) && (s == nb || c.domsets[nb][s]) {
+				out = append(out, pathCond{e: cond, pos: pol})
+			}
+		}
+	}
+	// dominating assertions
+	for _, a := range c.p.asserted(c.body) {
+		if a.node.Pos() <= n.Pos() && n.End() <= a.node.End() {
+			continue
+		}
+		if c.dominates(a.node, n) {
+			out = append(out, pathCond{e: a.cond, pos: true, fromAssert: true})
+		}
+	}
+	return out
+}
+
+// reaches reports whether block `to` is reachable from block `from` along live CFG edges (from itself counts).
+func (c *FnCFG) reaches(from, to int) bool {
+	seen := map[int]bool{}
+	var dfs func(b int) bool
+	dfs = func(b int) bool {
+		if b == to {
+			return true
+		}
+		if seen[b] {
+			return false
+		}
+		seen[b] = true
+		for _, s := range c.g.Blocks[b].Succs {
+			if dfs(int(s.Index)) {
+				return true
+			}
+		}
+		return false
+	}
+	return dfs(from)
+}
+
+// branchAtoms lists the two-way branches of the function (the whole condition; go/cfg does not split && / ||):
+// the condition expression, and the blocks control goes to when it is true / false.
+type branchAtom struct {
+	cond            ast.Expr
+	onTrue, onFalse int
+}
+
+func (c *FnCFG) branchAtoms() []branchAtom {
+	var out []branchAtom
+	for _, b := range c.g.Blocks {
+		if !b.Live || len(b.Succs) != 2 || len(b.Nodes) == 0 {
+			continue
+		}
+		if cond, ok := b.Nodes[len(b.Nodes)-1].(ast.Expr); ok {
+			out = append(out, branchAtom{cond, int(b.Succs[0].Index), int(b.Succs[1].Index)})
+		}
+	}
+	return out
 }
